@@ -92,8 +92,16 @@ def run_case(case, seed):
         if case["skipupd"]:
             pp.append("skip-snapshot-updates-for-now = true")
         has_pp = bool(pp) or rng.random() < 0.3
+        # a shortcut of [tool.inline-snapshot.shortcuts] - a new name or a redefinition of a built-in one - that
+        # stands for exactly the flags of the command line ("a shortcut option is the same as its flags")
+        shortcut = None
+        if has_pp and case["cli"]["on"] and case["cli"]["f"] and rng.random() < 0.35:
+            shortcut = rng.choice(["fix", "review", "mine"])
         if has_pp:
-            (d / "pyproject.toml").write_text("[tool.inline-snapshot]\n" + "\n".join(pp) + "\n")
+            text = "[tool.inline-snapshot]\n" + "\n".join(pp) + "\n"
+            if shortcut:
+                text += "\n[tool.inline-snapshot.shortcuts]\n%s = %s\n" % (shortcut, json.dumps(sorted(case["cli"]["f"])))
+            (d / "pyproject.toml").write_text(text)
         args = []
         if case["cli"]["on"]:
             f = list(case["cli"]["f"])
@@ -101,6 +109,8 @@ def run_case(case, seed):
             # the shortcut options exist only when a pyproject.toml is present in the working directory
             if not has_pp:
                 args.append("--inline-snapshot=" + ",".join(f))
+            elif shortcut:
+                args.append("--" + shortcut)
             elif sorted(f) == ["create", "fix"] and rng.random() < 0.5:
                 args.append("--fix")                       # built-in shortcut
             elif f == ["review"] and rng.random() < 0.5:
